@@ -187,6 +187,11 @@ def user_worlds(max_units, factors, forms):
 
 
 DERIVED_WORLDS = [
+    # units with a negative scale (conversion flips the sign)
+    [['type', 'NG', 'g0', None],
+     ['unit', 'NG', 'gneg', ['scaled', 'F:-1/4', 'g0']],
+     ['unit', 'NG', 'kgneg', ['scaled', 'i:1000', 'gneg']],
+     ['unit', 'NG', 'g2', ['scaled', 'i:2', 'g0']]],
     # binary scales whose ratio exceeds 2**61 (a sector of 512 byte next to
     # zebi / yobi multiples): numerically far apart, equal modulo 2**61 - 1
     [['type', 'DS', 'by', None],
@@ -206,7 +211,12 @@ DERIVED_WORLDS = [
      ['unit', 'V', 'x1/y1', ['derive', ['x1', 'y1']]],
      ['unit', 'V', 'x2py2', ['derive', ['x2', 'y2']]],
      ['unit', 'V', 'vt', ['term', [['F:22/7', 1], ['x2', 1], ['y1', -1]]]],
-     ['unit', 'V', 'vs', ['scaled', 'D:2.5', 'vt']]],
+     ['unit', 'V', 'vs', ['scaled', 'D:2.5', 'vt']],
+     # plain int factors that end up with exponent -1 (reciprocals that are
+     # not binary fractions)
+     ['unit', 'B2', 'y3', ['term', [['i:3', 1], ['y0', 1]]]],
+     ['unit', 'V', 'x1/y3', ['derive', ['x1', 'y3']]],
+     ['unit', 'V', 'vti', ['term', [['i:7', -1], ['x1', 1], ['y0', -1]]]]],
     [['type', 'B1', 'x0', None],
      ['unit', 'B1', 'x1', ['scaled', 'i:12', 'x0']],
      ['unit', 'B1', 'x2', ['term', [['F:1/3', 1], ['x1', 1]]]],
